@@ -256,6 +256,11 @@ namespace
         count((std::string("outcome_") + outcome_name(o)).c_str());
         if (o == o_continued)
             viol("C16", "C16/" + kind + "/" + what + "/missed", "%s on %s was not reported and did not stop the program", what, kind.c_str());
+        // a wild crash is not "stops the program before allocator state is changed": the bad value was used, whatever happened first
+        // (on the pinned tree every covered class ends in the handler or in a deliberate abort)
+        if (o == o_fatal)
+            viol("C16", "C16/" + kind + "/" + what + "/crashed-unreported",
+                 "%s on %s was not reported: the program died of a fatal signal other than a deliberate abort", what, kind.c_str());
         if (o == o_prefix_failed)
             viol("C16", "C16/" + kind + "/" + what + "/false-invalid-pointer-report", "the valid history before the bad call was reported");
     }
